@@ -28,6 +28,7 @@ type SpecEnv struct {
 	cur   *State
 	old   *State
 	locals *State // where local variables are read (old() switches the heap only, as in Dafny)
+	inOldCtx bool // inside old(): a parameter name denotes its value at function entry
 	vars  map[string]TV
 	params map[string]TV // consulted after locals (loop invariants see the current value of a reassigned parameter)
 	pkg   *types.Package
@@ -219,6 +220,11 @@ func (env *SpecEnv) ident(name string) TV {
 			env.fail("iter used outside a range loop")
 		}
 		return TV{S("%s", env.loop.iter), intT}
+	}
+	if env.inOldCtx {
+		if tv, ok := env.params[name]; ok {
+			return tv
+		}
 	}
 	if tv, ok := env.lookupLocal(name); ok {
 		return tv
@@ -614,6 +620,7 @@ func (env *SpecEnv) inOld() *SpecEnv {
 			n.locals = env.cur
 		}
 		n.cur = env.old
+		n.inOldCtx = true
 	}
 	return &n
 }
